@@ -136,10 +136,13 @@ def make_obs(oset):
     return None, O.System(O.SigmaZ(), O.SigmaX(), O.NeighbourInteraction(c=1))
 
 
-def run_driver_case(acc, kind, oset, ns, nc, bi, stp, init, ow, flagged):
+def run_driver_case(acc, kind, oset, ns, nc, bi, stp, init, ow, flagged, reuse=None):
     L = lib()
-    st, arch, params = F.fresh_state(kind, 2)
-    ob, system = make_obs(oset)
+    if reuse is None:
+        st, arch, params = F.fresh_state(kind, 2)
+        ob, system = make_obs(oset)
+    else:
+        st, ob, system = reuse  # non-initial state: same model and same observable objects, used before
     calls = []
     orig = st.sample
 
@@ -154,7 +157,7 @@ def run_driver_case(acc, kind, oset, ns, nc, bi, stp, init, ow, flagged):
     user0 = None if user is None else user.clone()
     chains = init if init is not None else (min(nc, ns) if nc != 0 else ns)
     q = "single-chain" if chains == 1 else "multi-chain"
-    case = dict(layer="driver", kind=kind, oset=oset, ns=ns, nc=nc, burn_in=bi, steps=stp, init=init, overwrite=ow)
+    case = dict(layer="driver", kind=kind, oset=oset, ns=ns, nc=nc, burn_in=bi, steps=stp, init=init, overwrite=ow, reused_objects=reuse is not None)
     torch.manual_seed(ns * 1000 + nc * 100 + bi * 10 + stp)
     target = system if system is not None else ob
     h0 = [p.clone() for net in st.networks for p in getattr(st, net).parameters()]
@@ -218,6 +221,12 @@ def run_driver_case(acc, kind, oset, ns, nc, bi, stp, init, ow, flagged):
         flag("stats:driver:model-parameters-changed")
     acc.traces += 1
     acc.outcome(sha([ns, nc, bi, stp, init, ow, chains, draws]))
+    if reuse is None and bi == 1 and stp == 1:
+        # the same objects again, with another request size, then after an in-place parameter update
+        from ..common import update_params, pattern, net_sizes
+        run_driver_case(acc, kind, oset, ns % 6 + 1, nc, 0, 2, init, ow, flagged, reuse=(st, ob, system))
+        update_params(st, [pattern(n_, 3, r_) for r_, n_ in enumerate(net_sizes(kind, arch))], "copy_")
+        run_driver_case(acc, kind, oset, ns, nc, bi, stp, init, ow, flagged, reuse=(st, ob, system))
 
 
 def run_item(item):
